@@ -89,6 +89,20 @@ def gen_model(rng: random.Random, *, max_samples: int = 8, max_perf: int = 4, ma
     used: set = set()
     ns = rng.randint(1, max_samples)
     samples = [gen_sample(rng, safe_name(rng, used), key(), max_clusters=max_clusters) for _ in range(ns)]
+    if share and rng.random() < 0.3:
+        # one more sample that lives further inside another sample's cluster chain (same FAT entry, larger cluster_top)
+        owners = [i for i, sm in enumerate(samples) if sm["n"] > R.CL // 2 + 8]
+        if owners:
+            j = rng.choice(owners)
+            o = samples[j]
+            kmax = (2 * o["n"] - 1) // R.CL
+            d = rng.randint(1, kmax)
+            n2 = o["n"] - d * (R.CL // 2)
+            mode = rng.randint(0, 6)
+            samples.append({"name": safe_name(rng, used), "key": o["key"], "key_offset": d * (R.CL // 2), "n": n2, "alias_of": j, "alias_skip": d,
+                            "points": gen_points(rng, n2, mode), "loop_mode": mode, "cluster_top": o.get("cluster_top", 0) + d, "freq": rng.randint(0, 5),
+                            "orig_key": rng.randint(21, 108), "policy": "contiguous", "seed": 0})
+            ns += 1
     partials, patches, perfs = [], [], []
     pn = used          # one name space per disk: a patch (program) and a sample of one performance must not collide
     nperf = rng.randint(1, max_perf)
